@@ -37,6 +37,10 @@ var longX = strings.Repeat("k", 96)
 var (
 	na, nb, nc, nz = model.N("/u", "a"), model.N("/u", "b"), model.N("/u", longX+"c"), model.N("/u", longX+"z")
 	zonePlus2      = time.FixedZone("plus2", 2*3600)
+	// nt: the id of na under another type (an index keyed by the id alone files it with na)
+	nt = model.N("/t", "a")
+	// tW: exactly 2^64 ns after T1 (outside the range of UnixNano, where that value wraps onto T1's)
+	tW = model.T1.Add(1 << 62).Add(1 << 62).Add(1 << 62).Add(1 << 62)
 )
 
 // universe: every pair of triples differs in as few components as possible, so
@@ -46,8 +50,8 @@ func universe(n int) []*triple.Triple {
 	u := []*triple.Triple{
 		model.T(na, p, model.ON(nb)),                                               // 0 base
 		model.T(na, model.PT("p", model.T1), model.ON(nb)),                         // 1 same id, temporal
-		model.T(na, model.PT("p", model.T2), model.ON(nb)),                         // 2 same id, other instant
-		model.T(nc, p, model.ON(nb)),                                               // 3 other subject
+		model.T(na, model.PT("p", tW), model.ON(nb)),                               // 2 same id, other instant (2^64 ns later)
+		model.T(nt, p, model.ON(nb)),                                               // 3 other subject: the same id under another type
 		model.T(na, p, model.ON(nc)),                                               // 4 other object
 		model.T(na, model.PI(longX+"q"), model.ON(nb)),                             // 5 other predicate id
 		model.T(na, p, model.OP(model.PT("p", model.T1))),                          // 6 predicate-valued object
@@ -60,9 +64,9 @@ func universe(n int) []*triple.Triple {
 
 // Argument grid: stored and non-stored values for every position.
 var (
-	argS = []*node.Node{na, nc, nb, nz}
+	argS = []*node.Node{na, nc, nb, nz, nt}
 	argP = []*predicate.Predicate{
-		model.PI("p"), model.PT("p", model.T1), model.PT("p", model.T2),
+		model.PI("p"), model.PT("p", model.T1), model.PT("p", tW),
 		model.PT("p", model.T3),                              // anchor never stored
 		model.PI(longX + "q"), model.PT(longX+"q", model.T1), // q@T1 stored only in the larger universe
 		model.PI(longX + "r"),                 // identifier never stored
@@ -459,7 +463,7 @@ func main() {
 	}
 	r.Set("result_size_histogram", hist)
 	r.Set("nontrivial_per_method", perMethodNontrivial)
-	r.Set("rule", "BFS over all subsets of the universe x {add,remove} x {every singleton, every 2-batch}, each transition replayed plainly and with every read issued just before its last write (read, write, read); after each replayed transition: listing + 10 methods x (4 subjects x 8 predicates x 8 objects as applicable), default options; nontrivial = the model expects at least one result and at least one stored triple does not match")
+	r.Set("rule", "BFS over all subsets of the universe x {add,remove} x {every singleton, every 2-batch}, each transition replayed plainly and with every read issued just before its last write (read, write, read); after each replayed transition: listing + 10 methods x (5 subjects x 8 predicates x 8 objects as applicable), default options; nontrivial = the model expects at least one result and at least one stored triple does not match")
 	r.Sample(map[string]interface{}{"path": paths[order[len(order)/2]], "then": ops[len(ops)/3], "query": qs[len(qs)/2]})
 	r.Sample(map[string]interface{}{"path": paths[order[len(order)-1]], "then": ops[0], "query": qs[0]})
 	r.Finish()
